@@ -169,6 +169,26 @@ fn run_hist(ctx: &mut Ctx, from: u64, to: u64, update_state_mode: bool) {
         }
         let final_pred = rng.below(preds.len());
         let final_text = rng.pick(&all_texts).to_vec();
+        // the object last held a text of the same byte and character counts (a permutation of the final one)
+        if rng.chance(1, 5) {
+            let mut perm = final_text.clone();
+            if rng.chance(1, 2) {
+                rng.shuffle(&mut perm);
+            } else {
+                perm.rotate_left(1);
+            }
+            if perm != final_text {
+                ctx.count("histories_ending_on_permutation_of_final_text", 1);
+            }
+            ops.push(Op::Update(Fmt::Raw, to_string(&perm)));
+            if rng.chance(1, 2) {
+                ops.push(Op::Predict(rng.below(preds.len())));
+            }
+        } else if rng.chance(1, 8) {
+            ops.push(Op::Update(Fmt::Raw, to_string(&final_text)));
+            ops.push(Op::WriteBoundaries(rng.next_u64()));
+            ctx.count("histories_ending_on_final_text_itself_with_labels", 1);
+        }
         let fp = &preds[final_pred];
         let with_cands = fp.tags && fp.stored;
         let history_json = |upto: usize| {
@@ -256,6 +276,20 @@ fn run_hist(ctx: &mut Ctx, from: u64, to: u64, update_state_mode: bool) {
                     if failed {
                         break;
                     }
+                }
+            }
+            // every intermediate state must be readable (accessors, iterator, both writers)
+            if r.is_ok() {
+                let seen = guard(|| observe(&s, false));
+                ctx.eval(1);
+                ctx.count("intermediate_states_read", 1);
+                if let Err(p) = seen {
+                    ctx.violation(
+                        &format!("{}:accessors_panicked_on_intermediate_state:{}", if update_state_mode { "C05" } else { "C08" }, panic_site(&p)),
+                        J::obj(vec![("history", history_json(i + 1)), ("after_step", J::s(op_name(op, &names))), ("panic", J::s(&p))]),
+                    );
+                    failed = true;
+                    break;
                 }
             }
             match r {
